@@ -16,25 +16,27 @@ _OPS = {}
 UNIT_EXPS = (0, -3, 3)        # GridOps.tla: UnitExps
 
 
-def grid(g, unit=1.0):
-    """voxel vertices and index maps for the grid; voxels ordered column by column, top to bottom (iy_code increases downwards)."""
+def grid(g, unit=1.0, numbering=None):
+    """voxel vertices and index maps for the grid; the voxel list is ordered as the spec's numbering says (default: column by
+    column, top to bottom); the maps use the documented convention (column ix, row jy counted from the top)."""
     import numpy as np
-    key = json.dumps([g, unit], sort_keys=True)
+    key = json.dumps([g, unit, sorted(map(tuple, numbering)) if numbering else None], sort_keys=True)
     if key in _OPS:
         return _OPS[key]
     from cherab.tools.inversions.admt_utils import generate_derivative_operators
     nx, ny, dx, dy, x0, y0 = g["nx"], g["ny"], g["dx"], g["dy"], g["x0"], g["y0"]
     verts, m12, m21, centres = [], {}, {}, []
-    k = 0
-    for ix in range(nx):
-        for jy in range(ny):                  # jy = 0 is the top row
-            iy = ny - 1 - jy                  # spec's iy counts upwards
-            cx, cy = x0 + ix * dx, y0 + iy * dy
-            verts.append([[cx - dx / 2, cy + dy / 2], [cx + dx / 2, cy + dy / 2], [cx + dx / 2, cy - dy / 2], [cx - dx / 2, cy - dy / 2]])
-            m12[k] = (ix, jy)
-            m21[(ix, jy)] = k
-            centres.append((cx, cy, ix, iy))
-            k += 1
+    if numbering is None:
+        numbering = [(ix, ny - 1 - jy, ix * ny + jy) for ix in range(nx) for jy in range(ny)]
+    for ix, iy, k in sorted(map(tuple, numbering), key=lambda t: t[2]):
+        if k != len(verts):
+            raise core.MachineryError("numbering is not a bijection onto 0..n-1")
+        jy = ny - 1 - iy                      # the maps count rows from the top, the spec's iy counts upwards
+        cx, cy = x0 + ix * dx, y0 + iy * dy
+        verts.append([[cx - dx / 2, cy + dy / 2], [cx + dx / 2, cy + dy / 2], [cx + dx / 2, cy - dy / 2], [cx - dx / 2, cy - dy / 2]])
+        m12[k] = (ix, jy)
+        m21[(ix, jy)] = k
+        centres.append((cx, cy, ix, iy))
     ops = generate_derivative_operators(np.array(verts, float) * unit, m12, m21)
     index = {(ix, iy): i for i, (_, _, ix, iy) in enumerate(centres)}
     _OPS[key] = (ops, centres, index)
@@ -51,8 +53,9 @@ def replay(rec, ctx):
     import numpy as np
     c = rec["case"]
     g = c["g"]
-    ops, centres, index = grid(g)
+    ops, centres, index = grid(g, 1.0, rec.get("numbering"))
     i = index[(c["ix"], c["iy"])]
+    order = c.get("order", "columns_down")
     f = np.array([poly(c["p"], x, y) for x, y, _, _ in centres], float)
     viol = []
     if c["kind"] == "deriv":
@@ -61,16 +64,16 @@ def replay(rec, ctx):
         want = float(rec["expect"])
         if abs(got - want) > 1e-9 * max(1.0, abs(want)):
             deg = "constant" if not any(c["p"][1:]) else ("linear" if not any(c["p"][3:]) else ("bilinear" if not (c["p"][3] or c["p"][5]) else "quadratic"))
-            viol.append({"sig": f"{c['op']}:{rec['class']}-cell:{deg}-field-not-exact",
+            viol.append({"sig": f"{c['op']}:{rec['class']}-cell:{deg}-field-not-exact" + ("" if order == "columns_down" else f"@voxels-listed-{order}"),
                          "detail": f"grid {g}, cell ({c['ix']},{c['iy']}) at ({rec['x']},{rec['y']}), field {c['p']}: operator gives {got!r}, exact {want!r}"})
             return viol
-        order = 1 if c["op"] in ("Dx", "Dy") else 2
+        deg_u = 1 if c["op"] in ("Dx", "Dy") else 2
         for e in UNIT_EXPS[1:]:
             u = 10.0 ** e
-            ops_u, _, _ = grid(g, u)
+            ops_u, _, _ = grid(g, u, rec.get("numbering"))
             got_u = float(ops_u[c["op"]][i] @ f)
-            want_u = want / u ** order
-            if abs(got_u - want_u) > 1e-9 * max(1.0 / u ** order, abs(want_u)):
+            want_u = want / u ** deg_u
+            if abs(got_u - want_u) > 1e-9 * max(1.0 / u ** deg_u, abs(want_u)):
                 viol.append({"sig": f"{c['op']}:not-homogeneous-in-the-length-unit:1e{e}", "detail": f"grid {g} in units of 1e{e}: {got_u!r} vs {want_u!r}"})
                 break
         return viol
@@ -109,6 +112,7 @@ CONSTANTS
   Deep = {deep}
 INVARIANT LaplacianLimit
 INVARIANT AnnihilatesConstants
+INVARIANT NumberingIsBijective
 INVARIANT EmitCase
 """
 
